@@ -6,11 +6,14 @@
 //   dab <d> <a> <b>      -> same                                          the free function ::dubins(d, alpha, beta)
 //   dist <s1> <s2>       -> `d=<bits>` | `d=none`                          distance(s1, s2)
 //   interp <s1> <s2> <t> -> `<x> <y> <yaw>` | `none`                       interpolate(s1, s2, t, out)
+//   icache <s1> <s2> <n> <t1..tn> -> `<pose> | <pose> | …`             the caching overload interpolate(from, to, t, firstTime, path, state)
+//                                                                         called n times with the same firstTime / path variables
 //   endp <s1> <s2>       -> `rev=<b> <W> <t> <p> <q> | <x> <y> <yaw>`      the path interpolate() stores (after the
 //                                                                         symmetric choice) and interpolate(from, path, 1.0, out, rho)
 // header `rs rho=<bits> lo=<bits> hi=<bits>`                     (also understood by drv_dubins: Model/ReedsShepp.lean)
 //   rspath <s1> <s2>     -> `<letters> <l0> .. <l4> len=<l>`               reedsShepp(s1, s2): 5 segment letters (L,S,R,N), signed lengths
 //   rsinterp <s1> <s2> <t> -> `<x> <y> <yaw>`                              interpolate(s1, s2, t, out)
+//   rscache <s1> <s2> <n> <t1..tn> -> `<pose> | <pose> | …`            the caching overload of ReedsSheppStateSpace::interpolate, as icache
 //   rsend <s1> <s2>      -> `<x> <y> <yaw>`                                interpolate(from, reedsShepp(s1,s2), 1.0, out)  (protected; derived class)
 //   both <s1> <s2>       -> `rs=<d> rsrev=<d> dub=<d> dubrev=<d>`          RS distance both ways, Dubins distance (same rho) both ways
 // stdout is flushed after every line so that, if the process dies (sanitizer report, an `assert` of the
@@ -22,6 +25,8 @@
 #include <ompl/base/spaces/DubinsStateSpace.h>
 #include <ompl/base/spaces/ReedsSheppStateSpace.h>
 #include <ompl/base/spaces/OwenStateSpace.h>
+#include <ompl/base/spaces/VanaStateSpace.h>
+#include <ompl/base/spaces/VanaOwenStateSpace.h>
 
 namespace ob = ompl::base;
 using DSS = ob::DubinsStateSpace;
@@ -143,6 +148,31 @@ static int runDubins(double rho, bool sym, double lo, double hi)
             sp.interpolate(s1, s2, tt, o);
             out(showPose(o));
         }
+        else if (op == "icache" && t.size() >= 8 && setPose(s1, t, 1) && setPose(s2, t, 4) && vp::parseNat(t[7]) &&
+                 t.size() == 8 + *vp::parseNat(t[7]))
+        {
+            // the caching overload interpolate(from, to, t, firstTime, path, state), called repeatedly with the same firstTime / path
+            bool first = true, ok = true;
+            DSS::DubinsPath path;
+            std::string res;
+            for (size_t i = 8; i < t.size() && ok; ++i)
+            {
+                auto tt = vp::parseBits(t[i]);
+                if (!tt)
+                {
+                    ok = false;
+                    break;
+                }
+                sp.interpolate(s1, s2, *tt, first, path, o);
+                if (!first && isDefault(path))
+                {
+                    res += (res.empty() ? "" : " | ") + std::string("nopath");
+                    break;
+                }
+                res += (res.empty() ? "" : " | ") + showPose(o);
+            }
+            out(ok ? res : "bad-op");
+        }
         else if (op == "endp" && t.size() == 7 && setPose(s1, t, 1) && setPose(s2, t, 4))
         {
             bool first = true;
@@ -207,6 +237,31 @@ static int runRS(double rho, double lo, double hi)
             }
             sp.interpolate(s1, s2, tt, o);
             out(showPose(o));
+        }
+        else if (op == "rscache" && t.size() >= 8 && setPose(s1, t, 1) && setPose(s2, t, 4) && vp::parseNat(t[7]) &&
+                 t.size() == 8 + *vp::parseNat(t[7]))
+        {
+            // the caching overload interpolate(from, to, t, firstTime, path, state), called repeatedly with the same firstTime / path
+            bool first = true, ok = true;
+            RSS::ReedsSheppPath path;
+            std::string res;
+            for (size_t i = 8; i < t.size() && ok; ++i)
+            {
+                auto tt = vp::parseBits(t[i]);
+                if (!tt)
+                {
+                    ok = false;
+                    break;
+                }
+                sp.interpolate(s1, s2, *tt, first, path, o);
+                if (!first && rsDefault(path))
+                {
+                    res += (res.empty() ? "" : " | ") + std::string("nopath");
+                    break;
+                }
+                res += (res.empty() ? "" : " | ") + showPose(o);
+            }
+            out(ok ? res : "bad-op");
         }
         else if (op == "rsend" && t.size() == 7 && setPose(s1, t, 1) && setPose(s2, t, 4))
         {
@@ -312,6 +367,144 @@ static int runOwen(double rho, double pitch, double lo, double hi)
     return 0;
 }
 
+// header `vana rho=<bits> pitch=<bits> lo=<bits> hi=<bits>`  (states are `x y z pitch yaw`; pitch range [-pitch, pitch])
+//   vpath <s1> <s2>       -> `rh=<horizontalRadius> rv=<verticalRadius> XY <W> <t> <p> <q> SZ <W> <t> <p> <q> len=<length()>` | `nopath`
+//   vinterp <s1> <s2> <t> -> `<x> <y> <z> <pitch> <yaw>`      interpolate(s1, s2, t, out)
+// VanaStateSpace is deterministic (doubling search + step optimisation): drv_dubins recomputes everything.
+using VSS = ob::VanaStateSpace;
+
+static bool setPose5(VSS::StateType *s, const std::vector<std::string> &t, size_t i)
+{
+    double v[5];
+    for (int k = 0; k < 5; ++k)
+    {
+        auto x = vp::parseBits(t[i + k]);
+        if (!x)
+            return false;
+        v[k] = *x;
+    }
+    (*s)[0] = v[0];
+    (*s)[1] = v[1];
+    (*s)[2] = v[2];
+    s->pitch() = v[3];
+    s->yaw() = v[4];
+    return true;
+}
+
+static int runVana(double rho, double pitch, double lo, double hi)
+{
+    VSS sp(rho, pitch);
+    ob::RealVectorBounds b(3);
+    b.setLow(lo);
+    b.setHigh(hi);
+    sp.setBounds(b);
+    auto *s1 = sp.allocState()->as<VSS::StateType>();
+    auto *s2 = sp.allocState()->as<VSS::StateType>();
+    auto *o = sp.allocState()->as<VSS::StateType>();
+    std::string line;
+    while (vp::readLine(line))
+    {
+        auto t = vp::tokens(line);
+        if (t.empty())
+            continue;
+        const std::string &op = t[0];
+        if (op == "vpath" && t.size() == 11 && setPose5(s1, t, 1) && setPose5(s2, t, 6))
+        {
+            auto p = sp.getPath(s1, s2);
+            if (!p || isDefault(p->pathXY_) || isDefault(p->pathSZ_))
+            {
+                out("nopath");
+                continue;
+            }
+            out("rh=" + vp::bits(p->horizontalRadius_) + " rv=" + vp::bits(p->verticalRadius_) + " XY " + showPath(p->pathXY_) + " SZ " +
+                showPath(p->pathSZ_) + " len=" + vp::bits(p->length()));
+        }
+        else if (op == "vinterp" && t.size() == 12 && setPose5(s1, t, 1) && setPose5(s2, t, 6) && vp::parseBits(t[11]))
+        {
+            sp.interpolate(s1, s2, *vp::parseBits(t[11]), o);
+            out(vp::bits((*o)[0]) + " " + vp::bits((*o)[1]) + " " + vp::bits((*o)[2]) + " " + vp::bits(o->pitch()) + " " + vp::bits(o->yaw()));
+        }
+        else
+            out("bad-op");
+    }
+    sp.freeState(s1);
+    sp.freeState(s2);
+    sp.freeState(o);
+    return 0;
+}
+
+// header `vanaowen rho=<bits> pitch=<bits> lo=<bits> hi=<bits>`  (states are `x y z pitch yaw`)
+//   vopath <s1> <s2>        -> `cat=<c> rh=<> rv=<> dz=<> phi=<> k=<n> XY <W> <t> <p> <q> SZ <W> <t> <p> <q> sz0=<x>,<y>,<yaw> len=<length()>` | `nopath`
+//   vointerp <s1> <s2> <t>  -> `<x> <y> <z> <pitch> <yaw>`
+//   vointerpr <s1> <s2> <t> <path fields…>  -> same (the extra tokens are the recorded path for drv_dubins; ignored here)
+// getPath runs root searches inside its radius search (not modelled): drv_dubins takes the whole printed path as a recorded
+// answer and recomputes `interpolate` from it.
+using VOS = ob::VanaOwenStateSpace;
+
+static bool setPose5o(VOS::StateType *s, const std::vector<std::string> &t, size_t i)
+{
+    double v[5];
+    for (int k = 0; k < 5; ++k)
+    {
+        auto x = vp::parseBits(t[i + k]);
+        if (!x)
+            return false;
+        v[k] = *x;
+    }
+    (*s)[0] = v[0];
+    (*s)[1] = v[1];
+    (*s)[2] = v[2];
+    s->pitch() = v[3];
+    s->yaw() = v[4];
+    return true;
+}
+
+static int runVanaOwen(double rho, double pitch, double lo, double hi)
+{
+    VOS sp(rho, pitch);
+    ob::RealVectorBounds b(3);
+    b.setLow(lo);
+    b.setHigh(hi);
+    sp.setBounds(b);
+    auto *s1 = sp.allocState()->as<VOS::StateType>();
+    auto *s2 = sp.allocState()->as<VOS::StateType>();
+    auto *o = sp.allocState()->as<VOS::StateType>();
+    std::string line;
+    while (vp::readLine(line))
+    {
+        auto t = vp::tokens(line);
+        if (t.empty())
+            continue;
+        const std::string &op = t[0];
+        if (op == "vopath" && t.size() == 11 && setPose5o(s1, t, 1) && setPose5o(s2, t, 6))
+        {
+            auto p = sp.getPath(s1, s2);
+            if (!p || isDefault(p->pathXY_) || isDefault(p->pathSZ_))
+            {
+                out("nopath");
+                continue;
+            }
+            out(std::string("cat=") + static_cast<char>(p->category()) + " rh=" + vp::bits(p->horizontalRadius_) + " rv=" +
+                vp::bits(p->verticalRadius_) + " dz=" + vp::bits(p->deltaZ_) + " phi=" + vp::bits(p->phi_) + " k=" +
+                std::to_string(p->numTurns_) + " XY " + showPath(p->pathXY_) + " SZ " + showPath(p->pathSZ_) + " sz0=" +
+                vp::bits(p->startSZ_->getX()) + "," + vp::bits(p->startSZ_->getY()) + "," + vp::bits(p->startSZ_->getYaw()) +
+                " len=" + vp::bits(p->length()));
+        }
+        else if ((op == "vointerp" && t.size() == 12 || op == "vointerpr" && t.size() > 12) && setPose5o(s1, t, 1) && setPose5o(s2, t, 6) &&
+                 vp::parseBits(t[11]))
+        {
+            sp.interpolate(s1, s2, *vp::parseBits(t[11]), o);
+            out(vp::bits((*o)[0]) + " " + vp::bits((*o)[1]) + " " + vp::bits((*o)[2]) + " " + vp::bits(o->pitch()) + " " + vp::bits(o->yaw()));
+        }
+        else
+            out("bad-op");
+    }
+    sp.freeState(s1);
+    sp.freeState(s2);
+    sp.freeState(o);
+    return 0;
+}
+
 int main()
 {
     std::string line;
@@ -323,6 +516,13 @@ int main()
         return runDubins(*kv("rho", h[1]), h[2] == "sym=1", *kv("lo", h[3]), *kv("hi", h[4]));
     if (h.size() == 4 && h[0] == "rs" && kv("rho", h[1]) && kv("lo", h[2]) && kv("hi", h[3]))
         return runRS(*kv("rho", h[1]), *kv("lo", h[2]), *kv("hi", h[3]));
+    if (h.size() == 5 && h[0] == "vanaowen" && kv("rho", h[1]) && kv("pitch", h[2]) && kv("lo", h[3]) && kv("hi", h[4]))
+        return runVanaOwen(*kv("rho", h[1]), *kv("pitch", h[2]), *kv("lo", h[3]), *kv("hi", h[4]));
+    // optional 6th token `lastarc=<0|1>`: tells drv_dubins which validity test of decoupled() the source under test has (ignored here)
+    if (h.size() == 6 && h[0] == "vana" && h[5].rfind("lastarc=", 0) == 0)
+        h.pop_back();
+    if (h.size() == 5 && h[0] == "vana" && kv("rho", h[1]) && kv("pitch", h[2]) && kv("lo", h[3]) && kv("hi", h[4]))
+        return runVana(*kv("rho", h[1]), *kv("pitch", h[2]), *kv("lo", h[3]), *kv("hi", h[4]));
     if (h.size() == 5 && h[0] == "owen" && kv("rho", h[1]) && kv("pitch", h[2]) && kv("lo", h[3]) && kv("hi", h[4]))
         return runOwen(*kv("rho", h[1]), *kv("pitch", h[2]), *kv("lo", h[3]), *kv("hi", h[4]));
     std::cout << "bad-header\n";
